@@ -72,7 +72,7 @@ PROPS = {
                      "unit listing: the fn pointers returned by get_function_by_pattern are defunctionalised (R12: three tags and a match that calls the three real functions)"],
     ),
     "C02": dict(
-        units=["store", "consensus", "parser", "outbox"],
+        units=["store", "consensus", "parser", "outbox", "snapshot"],
         kani=[K_NEXT_VERSION],
         undecided=["interleavings of concurrent clients (set_value reads under one lock acquisition and writes under another): "
                    "lock elision makes every function sequential, so 'two writers never both succeed' is NOT decided"],
